@@ -281,12 +281,18 @@ fn huge_counts(ctx: &'static Ctx) {
             m.extend_from_slice(&body[site.off + site.head_len..]);
         }
         l.nontrivial += 1;
-        let t0 = std::time::Instant::now();
+        // CPU time of this thread, not wall time: a loaded machine must not look like a stall
+        let cpu = || -> std::time::Duration {
+            let mut ts = libc::timespec { tv_sec: 0, tv_nsec: 0 };
+            unsafe { libc::clock_gettime(libc::CLOCK_THREAD_CPUTIME_ID, &mut ts) };
+            std::time::Duration::new(ts.tv_sec as u64, ts.tv_nsec as u32)
+        };
+        let t0 = cpu();
         let r = robust(&m, false);
-        let dt = t0.elapsed();
+        let dt = cpu().saturating_sub(t0);
         if dt.as_millis() > 1500 {
             st.store(true, std::sync::atomic::Ordering::Relaxed);
-            l.fail(ctx, idx, Verdict::fail(format!("{}|stall|announced-count", P), "returns promptly (work bounded by the input length)", format!("{} ms for a {}-byte message", dt.as_millis(), m.len())), || bytes_case(&m, json!({"huge_count_at": site.path, "width": w})));
+            l.fail(ctx, idx, Verdict::fail(format!("{}|stall|announced-count", P), "returns promptly (work bounded by the input length)", format!("{} ms of CPU time for a {}-byte message", dt.as_millis(), m.len())), || bytes_case(&m, json!({"huge_count_at": site.path, "width": w})));
             return;
         }
         match r {
